@@ -734,7 +734,8 @@ pub fn bang(r: &mut Runner, line: &str) {
                             let got = Levenshtein::new_with_limit(&q, d, limit);
                             let ok = match &got {
                                 Ok(l) => n <= limit && l.verif_num_states() == n,
-                                Err(LevenshteinError::TooManyStates(k)) => n > limit && *k == limit,
+                                // (the number carried by TooManyStates is not part of the statement)
+                                Err(LevenshteinError::TooManyStates(_)) => n > limit,
                             };
                             r.check(ok, || {
                                 format!(
